@@ -118,6 +118,13 @@ impl<'a> Visitor for Enumerate<'a> {
                 }
             }
         }
+        // integer-valued float exponents at negative bases (outside the domain filter of the reference
+        // model, which is not consulted for single-call operations): the float powf is exact there
+        for p in [3.0, -3.0] {
+            for x in [-2.5, -0.625, -1000.0] {
+                jobs.push((Op::Powf(p), vec![x]));
+            }
+        }
         let jobs_ref = &jobs;
         par_for(jobs.len(), self.stats, |n, st| {
             let (op, re) = &jobs_ref[n];
